@@ -57,7 +57,8 @@ func pool(t *gen.Ty, full bool) []*ref.V {
 	case "bool":
 		return []*ref.V{ref.BoolV(true), ref.BoolV(false)}
 	case "time":
-		return []*ref.V{ref.TimeV(t0), ref.TimeV(t0.Add(time.Second)), ref.TimeV(time.Unix(0, 0)), ref.TimeV(time.Unix(1641092645, 0))}
+		return []*ref.V{ref.TimeV(t0), ref.TimeV(t0.Add(time.Second)), ref.TimeV(time.Unix(0, 0)), ref.TimeV(time.Unix(1641092645, 0)),
+			ref.TimeV(t0.Add(1500 * time.Millisecond)), ref.TimeV(t0.Add(time.Millisecond)), ref.TimeV(t0.Add(-time.Nanosecond))}
 	case tyLNum.Canon():
 		return []*ref.V{ref.ListV(gen.Num), ref.ListV(gen.Num, nums(1)...), ref.ListV(gen.Num, nums(1, 2)...), ref.ListV(gen.Num, nums(2, 1)...),
 			ref.ListV(gen.Num, nums(1, 1, 2)...), ref.ListV(gen.Num, nums(0.5, -1)...), ref.ListV(gen.Num, nums(1e300, gen.Pow63, math.Copysign(0, -1))...),
